@@ -692,8 +692,12 @@ def check(run):
         bad = None
         if kind == "CB":
             s = G.unhx(w[1])[int(w[2]):]
-            if (s.count(b"{") == s.count(b"}")) != (io == "ok"):
-                bad = ("braces:count", "check_braces(%r, %s) = %s" % (G.unhx(w[1]), w[2], io))
+            dd, okn = 0, True
+            for ch in s:
+                dd += (ch == 0x7b) - (ch == 0x7d)
+                okn = okn and dd >= 0
+            if (okn and dd == 0) != (io == "ok"):
+                bad = ("braces:nesting", "check_braces(%r, %s) = %s" % (G.unhx(w[1]), w[2], io))
         elif kind == "SC" and "raw" in meta and c.split()[0] == "SC":
             if G.hx(py_strip_comments(G.unhx(w[1]))) != io:
                 bad = ("layout:comments", "read_config_string turns %r into %r" % (G.unhx(w[1]), G.unhx(io)))
@@ -829,11 +833,11 @@ def check(run):
         elif not must_accept and s2 == "ok":
             run.violation(sig, text, rp)
     # non-nested braces and other whole-string cases that must be refused by the module
-    for txt in [b"}{\n", b"colvar }\n  name x\n{\n", b"}\ncolvar {\n name x\n", b"colvar {\n name x\n}\n}{\n", b"{\n}\n", b"{}\n"]:
+    for txt in [b"smp }\ncolvar {\n", b"smp }\ncolvar {\n  colvarsTrajFrequency 5\n", b"}{\n", b"colvar }\n  name x\n{\n", b"}\ncolvar {\n name x\n", b"colvar {\n name x\n}\n}{\n", b"{\n}\n", b"{}\n"]:
         rc, o2, e2 = run_scn(unit, d, "nest", scenario(1, ["pos 1 0 0 0"], txt, 0))
         run.count("nest:" + txt.decode(), True)
         if conf_status(o2) == "ok":
-            run.violation("strict:module:brace-accepted", "the configuration %r is accepted" % txt, {"kind": "module", "natoms": 1, "positions": [], "config": txt.decode()})
+            run.violation("strict:module:non-nested-braces-accepted", "the configuration %r is accepted" % txt, {"kind": "module", "natoms": 1, "positions": [], "config": txt.decode()})
 
     # ------------------------------------------------------------ 3. crash / hang exploration (not proof)
     nbytes = 60 if quick else 1500
